@@ -41,6 +41,22 @@ Theorem c20_box_law_partial : forall W H t cx cy s d,
 Proof. exact box_law_holds. Qed.
 Print Assumptions c20_box_law_partial.
 
+(* stateful use (one image object, any history): for ANY well-formed image i reached by any
+   sequence of setters, measurements and drawings, a RenderText step changes pixels only inside the
+   box that StrWidth / LineHeight report for the state in force at that moment (they are
+   functions of that state alone - no memo, no history) *)
+Theorem c20_ink_in_box_step_partial : forall (i : img) (s : list Z),
+  wf_img i -> twrap (it i) = false -> sizes_ok (it i) -> lh (it i) < 4294967296 ->
+  has_lf (range_bytes s) = false ->
+  let i' := run_op i (OText s) in
+  wf_img i' /\
+  forall c r, 0 <= c < 8 * gwib (ig i) -> 0 <= r < gH (ig i) ->
+    px (gwib (ig i)) (idata i') c r <> px (gwib (ig i)) (idata i) c r ->
+    in_box (tcx (it i)) (tcy (it i)) (str_width (it i) s) (tsh (it i)) (line_height (it i))
+           (c - gbx (ig i)) (r - gby (ig i)) = true.
+Proof. exact ink_in_box_step. Qed.
+Print Assumptions c20_ink_in_box_step_partial.
+
 (* F16: with a byte 10 the cursor goes to column 0 of the next line; the literal claim is false *)
 Theorem c20_ink_in_box_refuted :
   let t := t_demo 0 1 1 in let s := [65; 10; 66] in
